@@ -8,5 +8,5 @@ git apply "$patch" || { echo "patch does not apply"; exit 2; }
 trap 'git -C /repo apply -R "$patch"; git -C /repo checkout -- . ; git -C /repo status --short | head -3' EXIT
 cd /verif
 for p in "$@"; do
-  ./check "$p" quick 2>&1 | grep -E "FAIL|VIOLATION|KNOWN|OK —|violations" | cut -c1-400
+  ./check "$p" quick 2>&1 | grep -E "FAIL|VIOLATION|OK —|violations" | cut -c1-400
 done
